@@ -48,11 +48,12 @@ type config struct {
 	Globals map[string]string `json:"globals"` // Go var name -> "coqname:width"
 	Errors  map[string]string `json:"errors"`  // Go error var name -> tag string
 	Structs map[string]string `json:"structs"` // struct type name -> file (relative to repo root) declaring it
+	Opaque  map[string][]string `json:"opaque"` // struct type name -> fields of interface/pointer type, modelled as "is non-nil"
 }
 
 type sfield struct {
 	name  string
-	width int // >0 unsigned integer width, -4 = []byte
+	width int // >0 unsigned integer width, -4 = []byte, -6 = opaque reference (bool: non-nil)
 }
 
 var structFields = map[string][]sfield{}
@@ -340,6 +341,9 @@ func (tr *translator) expr(e ast.Expr, en *env) (string, tinfo) {
 		case token.SHR:
 			return "(N.shiftr " + xs + " " + ys + ")", ti
 		case token.EQL:
+			if xt.width == -6 && ys == "None" {
+				return "(negb " + xs + ")", tinfo{width: -1}
+			}
 			if xt.width == -2 || yt.width == -2 {
 				return "(gerr_eqb " + xs + " " + ys + ")", tinfo{width: -1}
 			}
@@ -348,6 +352,9 @@ func (tr *translator) expr(e ast.Expr, en *env) (string, tinfo) {
 			}
 			return "(" + xs + " =? " + ys + ")", tinfo{width: -1}
 		case token.NEQ:
+			if xt.width == -6 && ys == "None" {
+				return xs, tinfo{width: -1}
+			}
 			if xt.width == -2 || yt.width == -2 {
 				return "(negb (gerr_eqb " + xs + " " + ys + "))", tinfo{width: -1}
 			}
@@ -552,6 +559,21 @@ func (tr *translator) block(stmts []ast.Stmt, en *env, k func(en *env) string) s
 		}
 		return tr.wrapPre(pre, tr.ret(vals, en))
 	case *ast.AssignStmt:
+		if len(s.Lhs) == len(s.Rhs) && len(s.Lhs) > 1 && s.Tok == token.ASSIGN {
+			// parallel assignment: evaluate every right-hand side first, then assign left to right
+			var seq []ast.Stmt
+			var names []string
+			for i, r := range s.Rhs {
+				nm := fmt.Sprintf("par%d_%d", tr.ntmp, i)
+				names = append(names, nm)
+				seq = append(seq, &ast.AssignStmt{Lhs: []ast.Expr{ast.NewIdent(nm)}, Tok: token.DEFINE, Rhs: []ast.Expr{r}})
+			}
+			tr.ntmp++
+			for i, l := range s.Lhs {
+				seq = append(seq, &ast.AssignStmt{Lhs: []ast.Expr{l}, Tok: token.ASSIGN, Rhs: []ast.Expr{ast.NewIdent(names[i])}})
+			}
+			return tr.block(append(seq, stmts[1:]...), en, k)
+		}
 		if len(s.Lhs) != 1 || len(s.Rhs) != 1 {
 			fail("%s: multiple assignment not supported", tr.fn.Name)
 		}
@@ -807,11 +829,17 @@ func main() {
 					} else if ti := typeOf(fl.Type, file.Name.Name); ti.width > 0 {
 						sf.width = ti.width
 					}
-					if sf.width == 0 {
-						fail("struct %s: unsupported field type", st)
-					}
 					for _, n := range fl.Names {
-						structFields[st] = append(structFields[st], sfield{name: n.Name, width: sf.width})
+						w := sf.width
+						for _, o := range cfg.Opaque[st] {
+							if o == n.Name {
+								w = -6
+							}
+						}
+						if w == 0 {
+							fail("struct %s: unsupported type of field %s", st, n.Name)
+						}
+						structFields[st] = append(structFields[st], sfield{name: n.Name, width: w})
 					}
 				}
 			}
@@ -825,6 +853,9 @@ func main() {
 			ty := "N"
 			if f.width == -4 {
 				ty = "list N"
+			}
+			if f.width == -6 {
+				ty = "bool"
 			}
 			fds = append(fds, fieldName(st, f.name)+" : "+ty)
 		}
